@@ -128,6 +128,7 @@ def main(argv):
         verdict=verdict, message=message, call=call, paths=ctx.PATHS,
         queries=stats["queries"], solver_time=round(stats["solver_time"], 3),
         wall=round(time.time() - t0, 2), states=states,
+        last_exc=getattr(ctx, "LAST_EXC", None), last_tb=(getattr(ctx, "LAST_TB", None) or "")[-1800:],
     )
     sys.stdout.write("\nXVRESULT " + json.dumps(out) + "\n")
     sys.stdout.flush()
